@@ -118,7 +118,10 @@ def run(ctx):
     fn, g, where = fn_cfg(ctx, PR, f"{COLL}.reload_pack_names")
     names = _unpack_names(fn, "_diff_pack_names")
     ctx.require(names is not None and len(names) == 4, f"{where}: result of _diff_pack_names() is not unpacked into 4 names")
-    setl = need(where, g.find(assigns_to("self._packs_at_load")), "assignment of _packs_at_load")
+    setl = g.find(assigns_to("self._packs_at_load"))
+    if not setl:
+        ctx.check("R4-atload-is-orig-disk", where, False, "reload rebases _packs_at_load on what the disk lists now", message="reload_pack_names no longer assigns self._packs_at_load: a pack another process wrote, learnt only through this reload, is not part of the base of the next _save_pack_names — when it is combined away it is not recognised as removed, stays listed in pack-names while its files move to obsolete_packs, and readers fail with NoSuchFile")
+        return
     vals = [norm(g.nodes[i].ast.value) for i in setl]
     ctx.check("R4-atload-is-orig-disk", where, all(v == names[3] for v in vals), f"reload: _packs_at_load := {names[3]} (original disk nodes, 4th result)", construct="; ".join(vals), message=f"reload_pack_names sets _packs_at_load to {vals}; pending in-memory names would then look already written and be dropped by the next merge")
     sync = need(where, calling(g, attr="_syncronize_pack_names_from_disk_nodes"), "_syncronize_pack_names_from_disk_nodes call")
